@@ -10,5 +10,7 @@ func init() {
 		// enumeration of every chunk size in [8192,12288) and 2^k+-2; the test partitions the domain by VERIF_SHARD
 		{Run: "TestResidues", Quick: 1, Thorough: 1, QShards: 16, TShards: 16, FullChecks: true, Env: env},
 		{Run: "TestGenerated", Quick: 24000, Thorough: 300000, QShards: 16, TShards: 16, Env: env},
+		// real channel pairs: which chunk size reaches SetMaximumBodySize (first token and renewals)
+		{Run: "TestWiring", Quick: 480, Thorough: 8000, QShards: 8, TShards: 16},
 	}}
 }
